@@ -13,8 +13,10 @@
    the UTF round trip for every input and every split on BOTH sides; split independence; for arbitrary input the
    decoders (Base and UTF, both directions) compute a function of the concatenation only and never reach the OOB
    outcome.  Hypotheses are the honest ones: sizes below 2^60 and, for UTF, the size guard of transform.c:158.
-   Still `_partial`: "what a UTF transform returns for ARBITRARY (malformed) input is accepted by the inverse"
-   (proved for the Base formats only). *)
+   "NULL or accepted by the inverse" is proved for arbitrary input of every primary pair (NONE<->Base x3, UTF-8<->UTF-16 x2
+   byte orders); UTF_ANY is reduced to those by C20_utf_any_detect.  NOT covered by a theorem (model + correspondence
+   only): the composite pairs that decode AND encode (Base -> other Base, UTF-16 -> UTF-16), because the region
+   structure of the intermediate object enters the size guard. *)
 From Coq Require Import ZArith List Bool Lia.
 From Verif Require Import Word Gen_transform Transform Transform_proofs Transform32_proofs TransformUtf_proofs.
 Import ListNotations.
@@ -123,6 +125,28 @@ Theorem C20_utf16_to_utf8_total : forall le d, wf_utf d ->
   (forall site, transform d (fmt16 le) F_UTF8 <> OOB site).
 Proof. exact utf16_to_utf8_total. Qed.
 Print Assumptions C20_utf16_to_utf8_total.
+
+(* "NULL or accepted by the inverse" for ARBITRARY input bytes and splits: whatever a UTF transform returns, the inverse
+   transform accepts, however the returned text is split *)
+Theorem C20_utf8_to_utf16_inverse_accepts : forall le d e, wf_utf d ->
+  transform d F_UTF8 (fmt16 le) = Ok e ->
+  forall d', flat d' = flat e -> wf_utf d' -> exists t, transform d' (fmt16 le) F_UTF8 = Ok t.
+Proof. exact utf8_to_utf16_inverse_accepts. Qed.
+Print Assumptions C20_utf8_to_utf16_inverse_accepts.
+
+Theorem C20_utf16_to_utf8_inverse_accepts : forall le d e, wf_utf d -> bytes (flat d) ->
+  transform d (fmt16 le) F_UTF8 = Ok e ->
+  forall d', flat d' = flat e -> wf_utf d' -> exists t, transform d' F_UTF8 (fmt16 le) = Ok t.
+Proof. exact utf16_to_utf8_inverse_accepts. Qed.
+Print Assumptions C20_utf16_to_utf8_inverse_accepts.
+
+(* the pairs without conversion *)
+Theorem C20_utf8_to_utf8 : forall d, exists t, transform d F_UTF8 F_UTF8 = Ok t /\ flat t = strip_bom8 (flat d).
+Proof. exact utf8_to_utf8_strips_bom. Qed.
+Print Assumptions C20_utf8_to_utf8.
+Theorem C20_none_to_none : forall d, transform d F_NONE F_NONE = Ok d.
+Proof. exact none_to_none_identity. Qed.
+Print Assumptions C20_none_to_none.
 
 (* UTF_ANY as input format: decided by the first two bytes *)
 Theorem C20_utf_any_detect : forall d out,
